@@ -825,7 +825,8 @@ FINDINGS
   those shapes made the oracle pass).  Now an ordinary supported case: half of the generated models contain such
   values, the witness is replayed on every run (`fixed: property=C03 5c8d56d ...`; failing again ->
   fixed-finding-regressed).  The attribution-by-repair machinery (REPAIRS / known_key) stays for future entries.
-* function-value-name-with-slash-below-ir10 (known_findings.d/C03.json, status known;
+* function-value-name-with-slash-below-ir10 (known_findings.d/C03.json; FIXED in /repo by a2fe113, entry flipped to
+  "fixed": the witness must pass now, `fixed: property=C03 a2fe113 ...`; the generator variant and the repair stay;
   proposed_fixes/C03-function-value-info-name-with-slash.diff): below IR 10 the type/shape/doc/metadata of a function's
   inputs and node outputs travel in the main graph's value_info under "{domain}::{function}/{value}"; for a value
   whose own name contains "/" (e.g. "a/b") the serializer writes "D::F/a/b" but
@@ -870,6 +871,9 @@ NON-C-CONTIGUOUS TENSORS.  About half of the ir.Tensor / LazyTensor tensors (ini
   serialized content against the logical elements of the IR tensor (logical_tensor_bytes) - when they differ the
   heap token is one no proto-side token can equal, so agree_ser / agree_roundtrip fail.  Snapshot (a) still uses
   tobytes() (it only asks "unchanged by to_proto").
+SEEDED CHANGES round 3: C03-r3m1 (NodeProto.overload written only for IR >= 10) depended on a rare edit
+  (node_set overload at IR < 10); plain nodes now get an overload at construction with probability 0.07 at ANY IR
+  version (only FUNCTION overloads are tied to IR >= 10, see the reading above), so it is detected robustly.
 SEEDED CHANGES round 3: C03-r3m3 (Tensor.tobytes() dumps a Fortran-contiguous array in memory order: same dtype and
   shape, permuted values) was not detected while the token and the oracle went through tobytes(); now detected.
 SEEDED CHANGES round 2: C03-r2m2 (stale metadata_props of a proto-backed tensor re-emitted after
